@@ -401,3 +401,65 @@ Theorem C11_attr_dict_loses_occurrences_refuted :
      = Some (s "m__q1").
 Proof. exact dict_version_loses_occurrences. Qed.
 Print Assumptions C11_attr_dict_loses_occurrences_refuted.
+
+(* ====================================================================== third pass *)
+
+(* GROUP ATTRIBUTES.  A property of the field read from a grouped dataset is the data variable's
+   own attribute if it has one, else the attribute of the NEAREST enclosing non-root group that
+   has one (searching from the variable's group towards the root), else the global attribute. *)
+Theorem C11_group_attributes :
+  forall glob fa groups vattrs k,
+  wf_fa fa -> NoDup (map fst vattrs) ->
+  assoc_str k (field_props glob fa groups vattrs) =
+    match assoc_str k vattrs with
+    | Some x => Some x
+    | None => match nearest_group_attr fa [] groups k with
+              | Some x => Some x
+              | None => assoc_str k glob
+              end
+    end.
+Proof. exact field_props_get. Qed.
+Print Assumptions C11_group_attributes.
+
+(* the names recorded as group attributes on the field are exactly those that some enclosing
+   non-root group defines *)
+Theorem C11_group_attributes_recorded :
+  forall fa groups vattrs k, wf_fa fa ->
+  In k (map fst (recorded_group_attrs fa groups vattrs)) <-> nearest_group_attr fa [] groups k <> None.
+Proof. exact recorded_group_attrs_spec. Qed.
+Print Assumptions C11_group_attributes_recorded.
+
+(* walking from the variable's group up to the root with the same dict.update (seeded change s4)
+   lets the OUTER group win *)
+Theorem C11_group_attributes_upward_refuted :
+  let fa := [([s "a"], [(s "comment", s "A")]); ([s "a"; s "b"], [(s "comment", s "B")])] in
+  assoc_str (s "comment") (group_attrs fa [s "a"; s "b"]) = Some (s "B") /\
+  assoc_str (s "comment") (group_attrs_up fa (rev [s "a"; s "b"]) []) = Some (s "A").
+Proof. exact group_attrs_up_outer_wins. Qed.
+Print Assumptions C11_group_attributes_upward_refuted.
+
+(* H5NETCDF.  For a dataset opened with h5netcdf (whose variables only know the names of their
+   dimensions) the flattener's get_dims gives every dimension name the nearest enclosing
+   definition - the dimension netCDF itself binds the name to - whatever the names, also when the
+   variable spans one dimension twice (repaired code, C11-fix3-1). *)
+Theorem C11_h5_dims_nearest :
+  forall root rp vdims, h5_get_dims root rp vdims = map (nc_lookup_dim root rp) vdims.
+Proof. exact h5_get_dims_nearest. Qed.
+Print Assumptions C11_h5_dims_nearest.
+
+(* before C11-fix3-1: v(x, x) in /g/h, x defined in / and in /g: both got the root dimension *)
+Theorem C11_h5_dims_repeated_old_refuted :
+  exists root,
+  h5_get_dims_old root [s "h"; s "g"] [s "x"; s "x"] = [Some []; Some []] /\
+  h5_get_dims root [s "h"; s "g"] [s "x"; s "x"] = [Some [s "g"]; Some [s "g"]] /\
+  h5_get_dims_old root [s "h"; s "g"] [s "x"] = [Some [s "g"]].
+Proof. exact h5_get_dims_old_repeated. Qed.
+Print Assumptions C11_h5_dims_repeated_old_refuted.
+
+(* the merged loop of seeded change s6: the outermost definition wins *)
+Theorem C11_h5_dims_merged_refuted :
+  exists root,
+  pget (s "x") (h5_walk_merged root [s "g"] [s "x"] []) = Some [] /\
+  h5_get_dims root [s "g"] [s "x"] = [Some [s "g"]].
+Proof. exact h5_merged_outer_wins. Qed.
+Print Assumptions C11_h5_dims_merged_refuted.
